@@ -153,14 +153,23 @@ fn ranges(tier: Tier) -> Vec<Range> {
 #[derive(Debug, Clone, Serialize, Deserialize)]
 pub struct Overflow {
     weights: Vec<u64>,
+    /// Bit i set = validator i is NOT leader-eligible (at least one leader is kept). The thresholds are about the
+    /// whole committee: eligibility must not matter.
+    #[serde(default)]
+    non_leaders: u8,
 }
 
 fn check_overflow(c: &Overflow, st: &mut Stats) -> Result<(), String> {
+    // keep at least one leader (a schedule without one is refused for another reason)
+    let mask = if (0..c.weights.len()).all(|i| c.non_leaders >> i & 1 == 1) { c.non_leaders & !1 } else { c.non_leaders };
     let infos = c.weights.iter().enumerate().map(|(i, w)| validator::ValidatorInfo {
         key: gen::val_keys()[i].public(),
         weight: *w,
-        leader: true,
+        leader: mask >> i & 1 == 0,
     });
+    if mask & ((1u8 << c.weights.len()) - 1) != 0 {
+        st.class("some_validators_not_leader_eligible");
+    }
     let sum: u128 = c.weights.iter().map(|w| *w as u128).sum();
     let res = validator::Schedule::new(infos, validator::LeaderSelection::default());
     let overflow = sum > u64::MAX as u128;
@@ -168,7 +177,7 @@ fn check_overflow(c: &Overflow, st: &mut Stats) -> Result<(), String> {
     if sum.abs_diff(u64::MAX as u128) <= 2 {
         st.class("sum_within_2_of_u64_max");
     }
-    st.nontrivial(common::fingerprint(&c.weights));
+    st.nontrivial(common::fingerprint(&(&c.weights, mask)));
     st.sample(|| serde_json::json!({"weights": c.weights, "accepted": res.is_ok()}));
     match (overflow, res) {
         (true, Ok(s)) => Err(format!(
@@ -180,6 +189,22 @@ fn check_overflow(c: &Overflow, st: &mut Stats) -> Result<(), String> {
         (false, Ok(s)) => {
             if s.total_weight() as u128 != sum {
                 return Err(format!("total weight {} != {sum}", s.total_weight()));
+            }
+            // the weight of the whole committee, of every member and of every signer set, through the schedule's own accessors
+            let all = validator::v2::Signers(bit_vec::BitVec::from_elem(s.len(), true));
+            if all.weight(&s) as u128 != sum {
+                return Err(format!("weights {:?}: weight(all signers) = {} != {sum}", c.weights, all.weight(&s)));
+            }
+            for (i, w) in c.weights.iter().enumerate() {
+                let key = gen::val_keys()[i].public();
+                if s.get(s.index(&key).ok_or("member without index")?).map(|v| v.weight) != Some(*w) {
+                    return Err(format!("weights {:?}: member {i} is listed with another weight", c.weights));
+                }
+            }
+            if (s.max_faulty_weight(), s.quorum_threshold(), s.subquorum_threshold())
+                != (validator::max_faulty_weight(sum as u64), validator::quorum_threshold(sum as u64), validator::subquorum_threshold(sum as u64))
+            {
+                return Err(format!("weights {:?} (leader mask {mask:#b}): the schedule's thresholds are not those of its total weight {sum}", c.weights));
             }
             oracle(s.total_weight(), s.max_faulty_weight(), s.quorum_threshold(), s.subquorum_threshold())
         }
@@ -201,7 +226,7 @@ fn overflow_strategy() -> impl Strategy<Value = Overflow> {
             if shuffle {
                 ws.reverse();
             }
-            Overflow { weights: ws }
+            Overflow { weights: ws, non_leaders: 0 }
         });
     let weight = prop_oneof![
         Just(1u64 << 63),
@@ -212,8 +237,14 @@ fn overflow_strategy() -> impl Strategy<Value = Overflow> {
         1u64..8,
         (1u64 << 60)..u64::MAX,
     ];
-    let far = proptest::collection::vec(weight, 2..7).prop_map(|weights| Overflow { weights });
-    prop_oneof![near, far]
+    let far = proptest::collection::vec(weight, 2..7).prop_map(|weights| Overflow { weights, non_leaders: 0 });
+    // (c) ordinary committees: 1-7 small or medium weights
+    let small = proptest::collection::vec(prop_oneof![1u64..6, 1u64..1000, 1u64..(1 << 40)], 1..8).prop_map(|weights| Overflow { weights, non_leaders: 0 });
+    // every list with and without validators that are not leader-eligible
+    (prop_oneof![near, far, small], prop_oneof![Just(0u8), any::<u8>()]).prop_map(|(mut o, m)| {
+        o.non_leaders = m;
+        o
+    })
 }
 
 #[derive(Debug, Clone, Serialize, Deserialize)]
@@ -269,7 +300,7 @@ pub fn main(env: &Env) -> i32 {
     parts.push(run_proptest(
         env,
         "overflow",
-        "2-5 weights whose sum lies within +-3 of 2^64, or 2-6 huge and small weights in any order whose running sum wraps at an early or middle entry (possibly twice); Schedule::new must reject exactly the lists whose 128-bit sum exceeds u64::MAX, and for accepted lists the thresholds of the exact total satisfy the oracle; distinct = weight vector",
+        "2-5 weights whose sum lies within +-3 of 2^64, or 2-6 huge and small weights in any order whose running sum wraps at an early or middle entry (possibly twice), or 1-7 small / medium weights; each list with all validators leader-eligible and with an arbitrary subset not eligible; Schedule::new must reject exactly the lists whose 128-bit sum exceeds u64::MAX, and for accepted lists total_weight(), weight(all signers), every member's weight and the three thresholds are those of the exact total of ALL members (eligibility is irrelevant) and satisfy the oracle; distinct = (weight vector, mask)",
         PartOpts { cases: env.tier.pick(20_000, 500_000), max_shrink_iters: 256, samples: 3 },
         overflow_strategy,
         check_overflow,
